@@ -575,10 +575,10 @@ class GotWantException(AssertionError):
                     want = utils.color_text(want, 'red')
                 text = 'Expected:\n{}\nGot nothing\n'.format(utils.indent(want))
             elif got:  # nocover
-                raise AssertionError('impossible state')
+                # The want can normalize to nothing (e.g. it only contains
+                # a <BLANKLINE> marker) while the got does not.
                 text = 'Expected nothing\nGot:\n{}'.format(utils.indent(got))
             else:  # nocover
-                raise AssertionError('impossible state')
                 text = 'Expected nothing\nGot nothing\n'
         return text
 
